@@ -2,10 +2,21 @@
 
 package zzsimrt
 
-import "runtime"
+import (
+	"runtime"
+	"unsafe"
+)
 
 // RaceBuild reports whether the binary was built with the race detector.
 const RaceBuild = true
 
 func raceOff() { runtime.RaceDisable() }
 func raceOn()  { runtime.RaceEnable() }
+
+// RaceErrors returns the number of data races the detector has reported so far in this process.
+func RaceErrors() int { return runtime.RaceErrors() }
+
+// raceReleaseMerge / raceAcquire give the scheduler a one-way happens-before edge from every goroutine
+// that parked (so that it may read their state), without ever creating an edge back.
+func raceReleaseMerge(p unsafe.Pointer) { runtime.RaceReleaseMerge(p) }
+func raceAcquire(p unsafe.Pointer)      { runtime.RaceAcquire(p) }
